@@ -1,10 +1,13 @@
 /-
   Proofs/C02Frame2.lean — the frame theorem once more, with more information at the state changes: the transition
   reference `tr` that executes denotes a transition `t` of the configuration, declared in the scope the change is made
-  from, and the destination handed to `nchangeState` is `t`'s.
+  from, the destination handed to `nchangeState` is `t`'s, and the source of `t` has not been exited while the
+  current event is processed (`event_data.exited_states`; `tnLoop` skips such states).
+
+  The membership of the offered candidates in `allTrans cfg` (`Frame2.ncandidates_reg`) is proved here, from
+  `Model/Tree.lean`, `Model/Spec/C02.lean` and `ncandidates` alone.
 -/
 import Proofs.C02Frame
-import Proofs.C02Project
 
 namespace TM
 open C02
@@ -16,15 +19,164 @@ structure Closed2 (cfg : NCfg) (sub : NSub) (sc : Script) (R : View → View →
     (hne : ∀ t x, e = .raised t x → x.isEngine = true) → R v ⟨v.conf, v.glog ++ [e]⟩
   execChange : ∀ (scope : Scope) (x : Ctx) (dest : SPath) (tr : TRef) (t : NTrans) (s s' : NSt),
     cfg.root.walkTo scope.pre = some scope → (tr, t) ∈ allTrans cfg → tr.scope = scope.pre → t.dest = some dest →
+    (scope.pre ++ t.source) ∉ s.exited →
     (nchangeState sub sc cfg scope x dest { s with glog := s.glog ++ [.exec tr] }).state? = some s' →
     R s.view s'.view
 
 namespace Frame2
+
+/-! ### the candidates offered in a reachable scope are transitions of the configuration -/
+
+theorem enter_eq {sc sc' : Scope} {k : Nat} (h : sc.enter k = some sc') :
+    ∃ d kids, sc.states.find k = some (d, kids) ∧
+      sc' = { owner := some d, states := kids, events := d.events, pre := sc.pre ++ [k] } := by
+  unfold Scope.enter at h
+  split at h
+  · next d kids hf => exact ⟨d, kids, hf, by simpa using h.symm⟩
+  · simp at h
+
+/-- the transitions declared in a scope and below it -/
+def scopeAll (sc : Scope) : List (TRef × NTrans) := scopeTrans sc.pre sc.events ++ forestTrans sc.pre sc.states
+
+theorem forestTrans_find {sf : SForest} {k : Nat} {d : SDef} {kids : SForest} (pre : SPath)
+    (h : sf.find k = some (d, kids)) :
+    ∀ e ∈ scopeTrans (pre ++ [k]) d.events ++ forestTrans (pre ++ [k]) kids, e ∈ forestTrans pre sf := by
+  induction sf with
+  | nil => simp [SForest.find] at h
+  | cons d0 kids0 rest _ ihr =>
+    simp only [SForest.find] at h
+    intro e he
+    simp only [forestTrans, List.mem_append]
+    split at h
+    · rename_i hk
+      simp only [Option.some.injEq, Prod.mk.injEq] at h
+      obtain ⟨rfl, rfl⟩ := h
+      subst hk
+      simp only [List.mem_append] at he
+      exact Or.inl he
+    · exact Or.inr (ihr h e he)
+
+theorem scopeAll_enter {sc sc' : Scope} {k : Nat} (h : sc.enter k = some sc') :
+    ∀ e ∈ scopeAll sc', e ∈ scopeAll sc := by
+  obtain ⟨d, kids, hf, rfl⟩ := enter_eq h
+  intro e he
+  simp only [scopeAll, List.mem_append]
+  exact Or.inr (forestTrans_find sc.pre hf e he)
+
+theorem scopeAll_walkTo : ∀ (p : SPath) (sc sc' : Scope), sc.walkTo p = some sc' →
+    ∀ e ∈ scopeAll sc', e ∈ scopeAll sc
+  | [], sc, sc', h => by simp only [Scope.walkTo, Option.some.injEq] at h; subst h; exact fun e he => he
+  | k :: p, sc, sc', h => by
+    simp only [Scope.walkTo] at h
+    cases he : sc.enter k with
+    | none => simp [he] at h
+    | some sc1 =>
+      rw [he] at h
+      intro e hm
+      exact scopeAll_enter he e (scopeAll_walkTo p sc1 sc' h e hm)
+
+theorem alookup_mem {β : Type} {k : Nat} {v : β} : ∀ {l : List (Nat × β)}, alookup k l = some v → (k, v) ∈ l
+  | [], h => by simp [alookup] at h
+  | (k', v') :: l, h => by
+    simp only [alookup] at h
+    split at h
+    · rename_i hk
+      simp only [Option.some.injEq] at h
+      subst h; subst hk; simp
+    · exact List.mem_cons_of_mem _ (alookup_mem h)
+
+/-- the candidates offered in a reachable scope are registered transitions, with their references -/
+theorem ncandidates_reg {cfg : NCfg} {sc : Scope} (hw : cfg.root.walkTo sc.pre = some sc) {ev : Nat} {ts : List NTrans}
+    (hts : alookup ev sc.events = some ts) (src : SPath) :
+    ∀ e ∈ ncandidates sc.pre ev ts src, e ∈ allTrans cfg := by
+  intro e he
+  have h1 : e ∈ scopeTrans sc.pre sc.events := by
+    simp only [ncandidates, List.mem_map, List.mem_filter] at he
+    obtain ⟨ti, ⟨hti, _⟩, rfl⟩ := he
+    simp only [scopeTrans, List.mem_flatMap, List.mem_map]
+    exact ⟨(ev, ts), alookup_mem hts, ti, hti, rfl⟩
+  have h2 : e ∈ scopeAll sc := by simp only [scopeAll, List.mem_append]; exact Or.inl h1
+  exact scopeAll_walkTo sc.pre cfg.root sc hw e h2
+
+/-! ### callbacks do not touch `exited` -/
+
+section Exited
+variable (sub : NSub) (sc : Script) (cfg : NCfg)
+
+theorem ninvoke_exited (hC : NoCmds sc) (slot : Slot) (x : Ctx) (c : Nat) (s s' : NSt)
+    (h : (ninvoke sub sc cfg slot x c s).state? = some s') : s'.exited = s.exited := by
+  simp only [ninvoke, hC c, nrunCmds] at h
+  cases ho : (sc c (s.count c)).out <;> simp only [ho, Res.state?, Option.some.injEq] at h <;> subst h <;> rfl
+
+theorem ncallbacks_exited (hC : NoCmds sc) (slot : Slot) (x : Ctx) : ∀ (cbs : List Nat) (s s' : NSt),
+    (ncallbacks sub sc cfg slot x cbs s).state? = some s' → s'.exited = s.exited
+  | [], s, s', h => by simp only [ncallbacks, Res.state?, Option.some.injEq] at h; subst h; rfl
+  | c :: cs, s, s', h => by
+    unfold ncallbacks at h
+    cases hi : ninvoke sub sc cfg slot x c s with
+    | ok b s1 =>
+      simp only [hi, Res.bind] at h
+      rw [ncallbacks_exited hC slot x cs s1 s' h]
+      exact ninvoke_exited sub sc cfg hC slot x c s s1 (by simp [hi, Res.state?])
+    | err e s1 =>
+      simp only [hi, Res.bind, Res.state?, Option.some.injEq] at h; subst h
+      exact ninvoke_exited sub sc cfg hC slot x c s s1 (by simp [hi, Res.state?])
+    | oof => simp [hi, Res.bind, Res.state?] at h
+
+theorem nevalConds_exited (hC : NoCmds sc) (x : Ctx) : ∀ (cs : List Cond) (s s' : NSt),
+    (nevalConds sub sc cfg x cs s).state? = some s' → s'.exited = s.exited
+  | [], s, s', h => by simp only [nevalConds, Res.state?, Option.some.injEq] at h; subst h; rfl
+  | c :: cs, s, s', h => by
+    unfold nevalConds at h
+    cases hi : ninvoke sub sc cfg (if c.target then .condition else .unless) x c.cb s with
+    | ok b s1 =>
+      have h1 := ninvoke_exited sub sc cfg hC _ x c.cb s s1 (by rw [hi]; rfl)
+      simp only [hi, Res.bind] at h
+      split at h
+      · rw [nevalConds_exited hC x cs s1 s' h, h1]
+      · simp only [Res.state?, Option.some.injEq] at h; subst h; exact h1
+    | err e s1 =>
+      simp only [hi, Res.bind, Res.state?, Option.some.injEq] at h; subst h
+      exact ninvoke_exited sub sc cfg hC _ x c.cb s s1 (by rw [hi]; rfl)
+    | oof => simp [hi, Res.bind, Res.state?] at h
+
+theorem bind_eq_ok {α β} {r : NR α} {f : α → NSt → NR β} {b : β} {s' : NSt} (h : r.bind f = .ok b s') :
+    ∃ a s1, r = .ok a s1 ∧ f a s1 = .ok b s' := by
+  cases r with
+  | ok a s1 => exact ⟨a, s1, rfl, h⟩
+  | err e s1 => simp [Res.bind] at h
+  | oof => simp [Res.bind] at h
+
+/-- a transition that is offered and blocked leaves `exited` as it was -/
+theorem nexecute_false_exited (hC : NoCmds sc) (scope : Scope) (x : Ctx) (tr : TRef) (t : NTrans) (s s' : NSt)
+    (h : nexecute sub sc cfg scope x tr t s = .ok false s') : s'.exited = s.exited := by
+  unfold nexecute at h
+  obtain ⟨_, s1, h1, h⟩ := bind_eq_ok h
+  obtain ⟨ok, s2, h2, h⟩ := bind_eq_ok h
+  have e1 : s1.exited = s.exited :=
+    ncallbacks_exited sub sc cfg hC _ x _ (s.emitG (.cand tr)) s1 (by rw [h1]; rfl)
+  have e2 : s2.exited = s1.exited := nevalConds_exited sub sc cfg hC x _ s1 s2 (by rw [h2]; rfl)
+  cases ok with
+  | false =>
+    simp only [Bool.not_false, if_true, Res.ok.injEq, true_and] at h
+    subst h; rw [e2, e1]
+  | true =>
+    simp only [Bool.not_true, Bool.false_eq_true, if_false] at h
+    obtain ⟨_, s3, _, h⟩ := bind_eq_ok h
+    obtain ⟨_, s4, _, h⟩ := bind_eq_ok h
+    obtain ⟨_, s5, _, h⟩ := bind_eq_ok h
+    obtain ⟨_, s6, _, h⟩ := bind_eq_ok h
+    obtain ⟨_, s7, _, h⟩ := bind_eq_ok h
+    simp at h
+
+end Exited
+
 variable {cfg : NCfg} {sub : NSub} {sc : Script} {R : View → View → Prop}
 
-/-- what is known of the candidates offered in a scope: listed in the configuration, declared in that scope -/
-def CandOK (cfg : NCfg) (scope : Scope) (cands : List (TRef × NTrans)) : Prop :=
-  ∀ e ∈ cands, e ∈ allTrans cfg ∧ e.1.scope = scope.pre
+/-- what is known of the candidates offered in a scope for the state `p`: listed in the configuration, declared in
+that scope, with source `p` -/
+def CandOK (cfg : NCfg) (scope : Scope) (p : SPath) (cands : List (TRef × NTrans)) : Prop :=
+  ∀ e ∈ cands, e ∈ allTrans cfg ∧ e.1.scope = scope.pre ∧ e.2.source = p
 
 theorem ncandidates_scope {pre : SPath} {ev : Nat} {ts : List NTrans} {p : SPath} {c : TRef × NTrans}
     (h : c ∈ ncandidates pre ev ts p) : c.1.scope = pre := by
@@ -32,9 +184,15 @@ theorem ncandidates_scope {pre : SPath} {ev : Nat} {ts : List NTrans} {p : SPath
   obtain ⟨e, _, rfl⟩ := h
   rfl
 
+theorem ncandidates_source {pre : SPath} {ev : Nat} {ts : List NTrans} {p : SPath} {c : TRef × NTrans}
+    (h : c ∈ ncandidates pre ev ts p) : c.2.source = p := by
+  simp only [ncandidates, List.mem_map, List.mem_filter] at h
+  obtain ⟨e, ⟨_, hs⟩, rfl⟩ := h
+  simpa using hs
+
 theorem ncandidates_ok {scope : Scope} (hw : cfg.root.walkTo scope.pre = some scope) {ev : Nat} {ts : List NTrans}
-    (hts : alookup ev scope.events = some ts) (p : SPath) : CandOK cfg scope (ncandidates scope.pre ev ts p) :=
-  fun e he => ⟨Project.ncandidates_reg hw hts p e he, ncandidates_scope he⟩
+    (hts : alookup ev scope.events = some ts) (p : SPath) : CandOK cfg scope p (ncandidates scope.pre ev ts p) :=
+  fun e he => ⟨ncandidates_reg hw hts p e he, ncandidates_scope he, ncandidates_source he⟩
 
 theorem weaken2 {α} (hcl : Closed2 cfg sub sc R) {r : NR α} {v w : View} (f : R v w) (h : PresV R r w) :
     PresV R r v := fun s' hs => hcl.trans f (h s' hs)
@@ -56,7 +214,8 @@ theorem mark2 (hcl : Closed2 cfg sub sc R) (s : NSt) (e : GEv) (hm : e.isMark = 
 /-- the `exec` mark, the `before` callbacks and the state change (if any), from the state before the mark -/
 theorem execStep_pres2 (hcl : Closed2 cfg sub sc R) (scope : Scope) (x : Ctx) (tr : TRef) (t : NTrans)
     (dest : Option SPath) (s4 : NSt) (l : List GEv) (hw : cfg.root.walkTo scope.pre = some scope)
-    (hm : (tr, t) ∈ allTrans cfg) (hsc : tr.scope = scope.pre) (hd : t.dest = dest) :
+    (hm : (tr, t) ∈ allTrans cfg) (hsc : tr.scope = scope.pre) (hd : t.dest = dest)
+    (hx : (scope.pre ++ t.source) ∉ s4.exited) :
     s4.glog = l ++ [.exec tr] →
     PresV R (match dest with
       | some d => nchangeState sub sc cfg scope x d s4
@@ -71,27 +230,31 @@ theorem execStep_pres2 (hcl : Closed2 cfg sub sc R) (scope : Scope) (x : Ctx) (t
     intro s' h
     have hs : ({ ({ s4 with glog := l } : NSt) with glog := ({ s4 with glog := l } : NSt).glog ++ [.exec tr] } : NSt) = s4 := by
       cases s4; simp only at hg; subst hg; rfl
-    have := hcl.execChange scope x d tr t { s4 with glog := l } s' hw hm hsc hd (by rw [hs]; exact h)
+    have := hcl.execChange scope x d tr t { s4 with glog := l } s' hw hm hsc hd hx (by rw [hs]; exact h)
     exact this
 
 
 theorem nexecute_pres2 (hC : NoCmds sc) (hcl : Closed2 cfg sub sc R) (scope : Scope) (x : Ctx) (tr : TRef) (t : NTrans)
     (s : NSt) (hw : cfg.root.walkTo scope.pre = some scope) (hm : (tr, t) ∈ allTrans cfg)
-    (hsc : tr.scope = scope.pre) :
+    (hsc : tr.scope = scope.pre) (hx : (scope.pre ++ t.source) ∉ s.exited) :
     PresV R (nexecute sub sc cfg scope x tr t s) s.view := by
   unfold nexecute
   have hcand : R s.view (s.emitG (.cand tr)).view := mark2 hcl s _ rfl (by intro t m h; cases h) (by intro t x h; cases h)
   refine PresV.bind (weaken2 hcl hcand (ncallbacks_pres2 hC hcl _ x _ _)) ?_
-  intro _ s1 _ f1
+  intro _ s1 h1 f1
+  have e1 : s1.exited = s.exited :=
+    ncallbacks_exited sub sc cfg hC _ x _ (s.emitG (.cand tr)) s1 (by rw [h1]; rfl)
   refine weaken2 hcl f1 (PresV.bind (nevalConds_pres2 hC hcl x _ s1) ?_)
-  intro ok s2 _ f2
+  intro ok s2 h2 f2
+  have e2 : s2.exited = s1.exited := nevalConds_exited sub sc cfg hC x _ s1 s2 (by rw [h2]; rfl)
   refine weaken2 hcl f2 ?_
   cases ok with
   | false => exact PresV.ok (hcl.refl _)
   | true =>
     simp only [Bool.not_true, Bool.false_eq_true, if_false]
     refine PresV.bind (ncallbacks_pres2 hC hcl _ x _ s2) ?_
-    intro _ s3 _ f3
+    intro _ s3 h3 f3
+    have e3 : s3.exited = s2.exited := ncallbacks_exited sub sc cfg hC _ x _ s2 s3 (by rw [h3]; rfl)
     refine weaken2 hcl f3 ?_
     -- from `s3`: the `exec` mark and the `before` callbacks (which fail or not) ...
     have hexec : R s3.view (s3.emitG (.exec tr)).view := mark2 hcl s3 _ rfl (by intro t m h; cases h) (by intro t x h; cases h)
@@ -102,7 +265,10 @@ theorem nexecute_pres2 (hC : NoCmds sc) (hcl : Closed2 cfg sub sc R) (scope : Sc
     have hconf : s4.conf = s3.conf := congrArg View.conf hv
     have hg : s4.glog = s3.glog ++ [.exec tr] := congrArg View.glog hv
     -- ... then the state change
-    have hstep := execStep_pres2 hcl scope x tr t t.dest s4 s3.glog hw hm hsc rfl hg
+    have e4 : s4.exited = s3.exited :=
+      ncallbacks_exited sub sc cfg hC _ x _ (s3.emitG (.exec tr)) s4 (by rw [h4]; rfl)
+    have hx4 : (scope.pre ++ t.source) ∉ s4.exited := by rw [e4, e3, e2, e1]; exact hx
+    have hstep := execStep_pres2 hcl scope x tr t t.dest s4 s3.glog hw hm hsc rfl hx4 hg
     rw [hconf] at hstep
     refine PresV.bind hstep ?_
     intro _ s5 _ f5
@@ -113,27 +279,33 @@ theorem nexecute_pres2 (hC : NoCmds sc) (hcl : Closed2 cfg sub sc R) (scope : Sc
     exact PresV.ok f7
 
 theorem ntry_pres2 (hC : NoCmds sc) (hcl : Closed2 cfg sub sc R) (scope : Scope) (x : Ctx)
-    (hw : cfg.root.walkTo scope.pre = some scope) : ∀ (cands : List (TRef × NTrans)) (s : NSt),
-    CandOK cfg scope cands → PresV R (ntry sub sc cfg scope x cands s) s.view
-  | [], s, _ => PresV.ok (hcl.refl _)
-  | (tr, t) :: r, s, hc => by
+    (hw : cfg.root.walkTo scope.pre = some scope) (p : SPath) : ∀ (cands : List (TRef × NTrans)) (s : NSt),
+    CandOK cfg scope p cands → (scope.pre ++ p) ∉ s.exited → PresV R (ntry sub sc cfg scope x cands s) s.view
+  | [], s, _, _ => PresV.ok (hcl.refl _)
+  | (tr, t) :: r, s, hc, hx => by
     unfold ntry
     have h0 := hc (tr, t) (List.mem_cons_self ..)
-    refine PresV.bind (nexecute_pres2 hC hcl scope x tr t s hw h0.1 h0.2) ?_
-    intro b s1 _ f1
+    have hsrc : t.source = p := h0.2.2
+    refine PresV.bind (nexecute_pres2 hC hcl scope x tr t s hw h0.1 h0.2.1 (by rw [hsrc]; exact hx)) ?_
+    intro b s1 h1 f1
     cases b with
     | true => exact PresV.ok f1
     | false =>
+      -- a blocked candidate has not changed `exited`
+      have e1 : s1.exited = s.exited := nexecute_false_exited sub sc cfg hC scope x tr t s s1 h1
       exact weaken2 hcl (v := s.view) (w := ({ s1 with result := some false } : NSt).view) f1
-        (ntry_pres2 hC hcl scope x hw r _ (fun e he => hc e (List.mem_cons_of_mem _ he)))
+        (ntry_pres2 hC hcl scope x hw p r _ (fun e he => hc e (List.mem_cons_of_mem _ he))
+          (show (scope.pre ++ p) ∉ s1.exited by rw [e1]; exact hx))
 
 theorem nprocess_pres2 (hC : NoCmds sc) (hcl : Closed2 cfg sub sc R) (scope : Scope) (x : Ctx)
-    (hw : cfg.root.walkTo scope.pre = some scope) (cands : List (TRef × NTrans)) (s : NSt)
-    (hc : CandOK cfg scope cands) : PresV R (nprocess sub sc cfg scope x cands s) s.view := by
+    (hw : cfg.root.walkTo scope.pre = some scope) (p : SPath) (cands : List (TRef × NTrans)) (s : NSt)
+    (hc : CandOK cfg scope p cands) (hx : (scope.pre ++ p) ∉ s.exited) :
+    PresV R (nprocess sub sc cfg scope x cands s) s.view := by
   unfold nprocess
   refine PresV.bind (ncallbacks_pres2 hC hcl _ x _ s) ?_
-  intro _ s1 _ f1
-  exact weaken2 hcl f1 (ntry_pres2 hC hcl scope x hw cands s1 hc)
+  intro _ s1 h1 f1
+  have e1 : s1.exited = s.exited := ncallbacks_exited sub sc cfg hC _ x _ s s1 (by rw [h1]; rfl)
+  exact weaken2 hcl f1 (ntry_pres2 hC hcl scope x hw p cands s1 hc (by rw [e1]; exact hx))
 
 theorem tnLoop_pres2 (hC : NoCmds sc) (hcl : Closed2 cfg sub sc R) (scope : Scope) (x : Ctx) (ev : Nat)
     (ts : List NTrans) (hw : cfg.root.walkTo scope.pre = some scope) (hts : alookup ev scope.events = some ts) :
@@ -144,9 +316,11 @@ theorem tnLoop_pres2 (hC : NoCmds sc) (hcl : Closed2 cfg sub sc R) (scope : Scop
     simp only []
     split
     · exact tnLoop_pres2 hC hcl scope x ev ts hw hts ps done s
-    · split
+    · rename_i hn
+      have hx : (scope.pre ++ p) ∉ s.exited := fun hm => hn (Or.inr (Or.inr hm))
+      split
       · exact PresV.err (hcl.refl _)
-      · refine PresV.bind (nprocess_pres2 hC hcl scope x hw _ s (ncandidates_ok hw hts p)) ?_
+      · refine PresV.bind (nprocess_pres2 hC hcl scope x hw p _ s (ncandidates_ok hw hts p) hx) ?_
         intro _ s1 _ f1
         exact weaken2 hcl f1 (tnLoop_pres2 hC hcl scope x ev ts hw hts ps _ s1)
 
@@ -161,16 +335,18 @@ theorem triggerNested_pres2 (hC : NoCmds sc) (hcl : Closed2 cfg sub sc R) (scope
     · exact PresV.oof
     · refine PresV.bind (tnLoop_pres2 hC hcl scope x ev ts hw hts _ _ s) ?_
       intro _ s1 _ f1
-      exact PresV.ok f1
+      split
+      · exact PresV.ok f1
+      · exact PresV.ok (s := { s1 with result := some true }) f1
 
 theorem ten_pres2 (hC : NoCmds sc) (hcl : Closed2 cfg sub sc R) (x : Ctx) (ev : Nat) :
-    ∀ (tree : Forest) (scope : Scope) (res : List (Nat × Bool)) (s : NSt),
-    cfg.root.walkTo scope.pre = some scope → PresV R (ten sub sc cfg x ev scope tree res s) s.view := by
+    ∀ (tree : Forest) (scope : Scope) (res : List (Nat × Bool)) (offered : Bool) (s : NSt),
+    cfg.root.walkTo scope.pre = some scope → PresV R (ten sub sc cfg x ev scope tree res offered s) s.view := by
   intro tree
   induction tree with
-  | nil => intro scope res s _; unfold ten; exact PresV.ok (hcl.refl _)
+  | nil => intro scope res offered s _; unfold ten; exact PresV.ok (hcl.refl _)
   | cons key value rest ihv ihr =>
-    intro scope res s hw
+    intro scope res offered s hw
     unfold ten
     refine PresV.bind ?_ ?_
     · split
@@ -178,21 +354,19 @@ theorem ten_pres2 (hC : NoCmds sc) (hcl : Closed2 cfg sub sc R) (x : Ctx) (ev : 
       · split
         · exact PresV.err (hcl.refl _)
         · rename_i inner he
-          refine PresV.bind (ihv inner [] s (Scope.walkTo_enter hw he)) ?_
+          refine PresV.bind (ihv inner [] false s (Scope.walkTo_enter hw he)) ?_
           intro _ s1 _ f1
           exact PresV.ok f1
     · intro res1 s1 _ f1
-      refine weaken2 hcl f1 (PresV.bind ?_ ?_)
+      refine weaken2 hcl f1 ?_
+      split
       · split
-        · split
-          · rename_i ts hts
-            refine PresV.bind (triggerNested_pres2 hC hcl scope x ev ts hw hts s1) ?_
-            intro _ s2 _ f2
-            exact PresV.ok f2
-          · exact PresV.ok (hcl.refl _)
-        · exact PresV.ok (hcl.refl _)
-      · intro res2 s2 _ f2
-        exact weaken2 hcl f2 (ihr scope res2 s2 hw)
+        · rename_i ts hts
+          refine PresV.bind (triggerNested_pres2 hC hcl scope x ev ts hw hts s1) ?_
+          intro _ s2 _ f2
+          exact weaken2 hcl f2 (ihr scope _ true s2 hw)
+        · exact ihr scope res1 offered s1 hw
+      · exact ihr scope res1 offered s1 hw
 
 theorem checkEventResult_pres2 (hcl : Closed2 cfg sub sc R) (res : Option Bool) (ev : Nat) (s : NSt) :
     PresV R (checkEventResult cfg res ev s) s.view := by
@@ -207,7 +381,7 @@ theorem checkEventResult_pres2 (hcl : Closed2 cfg sub sc R) (res : Option Bool) 
 theorem triggerEventBody_pres2 (hC : NoCmds sc) (hcl : Closed2 cfg sub sc R) (x : Ctx) (ev : Nat) (s : NSt) :
     PresV R (triggerEventBody sub sc cfg x ev s) s.view := by
   unfold triggerEventBody
-  refine PresV.bind (ten_pres2 hC hcl x ev s.conf cfg.root [] s (NCfg.walkTo_root cfg)) ?_
+  refine PresV.bind (ten_pres2 hC hcl x ev s.conf cfg.root [] false s (NCfg.walkTo_root cfg)) ?_
   intro r s1 _ f1
   refine weaken2 hcl f1 (PresV.bind (checkEventResult_pres2 hcl _ ev s1) ?_)
   intro b s2 _ f2
@@ -272,8 +446,8 @@ theorem finallyClause_pres2 (hC : NoCmds sc) (hcl : Closed2 cfg sub sc R) (x : C
 
 theorem ntriggerEvent_pres2 (hC : NoCmds sc) (hcl : Closed2 cfg sub sc R) (x : Ctx) (ev : Nat) (s : NSt) :
     PresV R (ntriggerEvent sub sc cfg x ev s) s.view := by
-  have hbody : PresV R (triggerEventBody sub sc cfg x ev { s with result := none }) s.view :=
-    triggerEventBody_pres2 hC hcl x ev { s with result := none }
+  have hbody : PresV R (triggerEventBody sub sc cfg x ev { s with result := none, exited := [] }) s.view :=
+    triggerEventBody_pres2 hC hcl x ev { s with result := none, exited := [] }
   unfold ntriggerEvent
   exact finallyClause_pres2 hC hcl x _ _ (exceptClause_pres2 hC hcl x _ _ hbody)
 
